@@ -293,7 +293,7 @@ func innermostLoop(in ssa.Instruction) (header *ssa.BasicBlock, backs []ssa.Inst
 			if x == to {
 				return true
 			}
-			if seen[x] || x == avoid {
+			if seen[x] || (x == avoid && x != from) {
 				continue
 			}
 			seen[x] = true
